@@ -110,16 +110,30 @@ class SpecGeom:
                     grounded=any(ground))
 
     # ---------------------------------------------------------------- far field
-    def far_F(self, I, k, rhat):
+    def far_F(self, I, k, rhat, exact=False):
+        """exact: the radiation integral over the straight half segments (phase centre at the middle of each half,
+           factor sin(x)/x) instead of the current moment placed at the pulse point"""
         F = np.zeros(3, dtype=complex)
         imgs = (1, -1) if self.ground else (1,)
         for p, cur in zip(self.pulses, I):
             for img in imgs:
-                x = p['pt'] * np.array([1, 1, img])
-                ph = np.exp(1j * k * np.dot(rhat, x))
+                kv = np.array([1, 1, img])
+                x = p['pt'] * kv
+                ph0 = np.exp(1j * k * np.dot(rhat, x))
                 for h in range(2):
                     d = p['dirs'][h]
-                    if p['grounded']:
+                    ph = ph0
+                    if exact:
+                        he = self.half(p, -1 if h == 0 else 1)
+                        c = 0.5 * (p['pt'] + he) * kv
+                        xx = 0.5 * k * float(np.dot(rhat, (he - p['pt']) * kv))
+                        ph = np.exp(1j * k * np.dot(rhat, c)) * (math.sin(xx) / xx if abs(xx) > 1e-12 else 1.0)
+                    if p['grounded'] and exact:
+                        # the real half and, separately, its mirror image (the half "below ground" IS that image)
+                        if p['ground'][h]:
+                            continue
+                        vec = d if img == 1 else d * np.array([-1, -1, 1])
+                    elif p['grounded']:
                         if p['ground'][h] or img == -1:
                             continue
                         vec = np.array([0, 0, 2 * d[2]])
@@ -130,12 +144,12 @@ class SpecGeom:
                     F += cur * p['sign'][h] * k * p['lens'][h] / 2 * ph * vec
         return F
 
-    def far_E(self, I, k, theta_deg, phi_deg):
+    def far_E(self, I, k, theta_deg, phi_deg, exact=False):
         t, p_ = math.radians(theta_deg), math.radians(phi_deg)
         rhat = np.array([math.sin(t) * math.cos(p_), math.sin(t) * math.sin(p_), math.cos(t)])
         that = np.array([math.cos(t) * math.cos(p_), math.cos(t) * math.sin(p_), -math.sin(t)])
         phat = np.array([-math.sin(p_), math.cos(p_), 0.0])
-        F = self.far_F(I, k, rhat)
+        F = self.far_F(I, k, rhat, exact)
         return -1j * G0 * np.dot(F, that), -1j * G0 * np.dot(F, phat)
 
     # ---------------------------------------------------------------- surrogate kernel
